@@ -122,6 +122,7 @@ def cases(tier):
         yield Case("layer:lam=%s" % ("default" if lam is None else "%g" % lam), {"kind": "layer", "lam": lam})
         yield Case("slopes:lam=%s" % ("default500" if lam is None else "%g" % lam),
                    {"kind": "slopes", "lam": 500e-9 if lam is None else lam})
+    yield Case("caller_owned_profiles", {"kind": "reuse"})
     for fn in AXIS_FUNCS:
         for sh in _shapes(tier):
             yield Case("axis:%s:shape=%s" % (fn, "x".join(map(str, sh))),
@@ -183,7 +184,7 @@ def evaluate(p):
     if p["kind"] == "bandhist":
         return _bandhist(p)
     return {"inv": _inv, "law": _law, "mag": _mag, "phot": _phot, "photmag": _photmag, "layer": _layer,
-            "slopes": _slopes, "axis": _axis}[p["kind"]](p)
+            "slopes": _slopes, "axis": _axis, "reuse": _reuse}[p["kind"]](p)
 
 
 def _kw(lam):
@@ -467,7 +468,60 @@ def _slopes(p):
                         worst = max(worst, _rel(got, r0))
     o.stat("lib_calls", n)
     o.close("slope_variance_r0_inverse", worst, 1e-11)
+    # long records (thousands of frames) that are NOT periodic: a drifting ramp k - mean has the population variance
+    # (n^2 - 1) / 12 exactly, a ramp plus an alternating term adds 1 exactly (n even) - a variance taken block by
+    # block would lose the spread of the block means
+    worst_long, m = 0.0, 0
+    for nfr in (130, 1000, 4098, 8194, 20000, 70002):
+        k = numpy.arange(nfr, dtype=float)
+        for name, frames, pv in (("ramp", k - k.mean(), (nfr * nfr - 1) / 12.0),
+                                 ("ramp+alt", (k - k.mean()) + (-1.0) ** k, None)):
+            if name == "ramp+alt":
+                pv = float(numpy.mean((frames - frames.mean()) ** 2))     # float64 mean of exact values (reference model arithmetic)
+            for d, r0 in ((SUBAP_DIAMS[1], R0S[3]), (SUBAP_DIAMS[4], R0S[6])):
+                var = float(ac.slope_variance_from_r0(r0, lam, d))
+                amp = math.sqrt(var / pv)
+                sl = numpy.empty((2, 2, nfr))
+                for a_ in range(2):
+                    for s in range(2):
+                        sl[a_, s] = (frames if (a_ + s) % 2 == 0 else -frames[::-1]) * amp + 0.3 * amp * (s - a_)
+                got = float(ac.r0_from_slopes(sl, lam, d))
+                m += 1
+                worst_long = max(worst_long, _rel(got, r0))
+    o.stat("lib_calls", m)
+    o.close("slope_variance_r0_inverse_long_records", worst_long, 1e-9)
     o.outcome([lam, worst < 1e-11])
+    return o
+
+
+def _reuse(p):
+    """call histories on caller-owned float64 profile arrays (the same h / v / Cn2 array handed to one function after
+    the other, and again after the caller edited it in place), for every profile function and the conversions"""
+    from mc import variants
+    o = Out()
+    ac = _ac()
+    cn2 = numpy.array([5e-15, 2e-15, 1e-15, 3e-15, 1e-15])
+    h = numpy.array([100., 2000., 5000., 9000., 15000.])
+    w = numpy.array([5., 10., 20., 30., 15.])
+    st_c, st_h = numpy.array([cn2, cn2[::-1] * 2]), numpy.array([h, h + 250.])
+    k = 0
+    scale_ = lambda a: a.__imul__(1.5)
+    for name, second in (("coherenceTime", w), ("isoplanaticAngle", h), ("rytov_variance", h)):
+        f = getattr(ac, name)
+        k += variants.check_reuse(o, "second_profile", lambda x: f(cn2.copy(), x, 800e-9), second, 1e-13, sub=name, mutate=scale_)
+        k += variants.check_reuse(o, "cn2_profile", lambda x: f(x, second.copy(), 800e-9), cn2, 1e-13, sub=name, mutate=scale_)
+        s2 = st_h if name != "coherenceTime" else numpy.array([w, w[::-1]])
+        k += variants.check_reuse(o, "second_profile", lambda x: f(st_c.copy(), x, 800e-9, -1), s2, 1e-13, sub=name + ":stack", mutate=scale_)
+    # one array through a chain of different functions: every later result is what a pristine copy gives
+    hh = h.copy()
+    got = [float(ac.isoplanaticAngle(cn2, hh)), float(ac.rytov_variance(cn2, hh)), float(ac.isoplanaticAngle(cn2, hh))]
+    want = [float(ac.isoplanaticAngle(cn2.copy(), h.copy())), float(ac.rytov_variance(cn2.copy(), h.copy())),
+            float(ac.isoplanaticAngle(cn2.copy(), h.copy()))]
+    o.close("chain_on_one_array_equals_pristine", _rel(got, want), 1e-13)
+    for name in ("cn2_to_r0", "r0_to_cn2", "r0_to_seeing", "seeing_to_r0", "cn2_to_seeing", "seeing_to_cn2"):
+        k += variants.check_reuse(o, "values", lambda x: getattr(ac, name)(x, 6e-7), numpy.array([0.1, 0.15, 0.2]), 1e-13,
+                                  sub=name, mutate=scale_)
+    o.stat("lib_calls", k + 6)
     return o
 
 
